@@ -54,6 +54,7 @@ func checkC10(p *Program, r *Report) {
 	c10WriteBack(p, r, m, sums)
 	c10Make(p, r, m, sums)
 	c10Applied(p, r, m, sums)
+	c10GuardSiblings(p, r, m, sums)
 }
 
 func c10Sinks(p *Program, r *Report, m *vmModel, sums *typeSummaries) {
@@ -1012,4 +1013,74 @@ func c10Applied(p *Program, r *Report, m *vmModel, sums *typeSummaries) {
 		}
 	}
 	r.Floor("C10.R8", n, 10)
+}
+
+// c10GuardSiblings (R9): the element/slice read handler and its assignment twin test the same operand against the same limit
+// with the same relation: an off-by-one in one of the two makes `a[i:j]` legal to read and illegal to assign (or the reverse).
+func c10GuardSiblings(p *Program, r *Report, m *vmModel, sums *typeSummaries) {
+	va := buildEvalAnalysis(m)
+	a := newAddrAnalysis(m, va, sums)
+	guards := func(role string, kind string) map[string]string {
+		set := c10HandlerSet(m, a, kind)
+		out := map[string]string{}
+		for fn, what := range set {
+			if !strings.HasPrefix(what, role) {
+				continue
+			}
+			for _, b := range fn.Blocks {
+				iff, ok := b.Instrs[len(b.Instrs)-1].(*ssa.If)
+				if !ok {
+					continue
+				}
+				bo, ok := iff.Cond.(*ssa.BinOp)
+				if !ok {
+					continue
+				}
+				switch bo.Op {
+				case token.LSS, token.LEQ, token.GTR, token.GEQ, token.EQL:
+				default:
+					continue
+				}
+				l, rr := a.symInt(fn, bo.X, 0), a.symInt(fn, bo.Y, 0)
+				if !strings.Contains(l, "int(") && !strings.Contains(rr, "int(") {
+					continue
+				}
+				if strings.Contains(l, "?") || strings.Contains(rr, "?") {
+					continue
+				}
+				key := l + " vs " + rr
+				if !strings.Contains(","+out[key]+",", ","+bo.Op.String()+",") {
+					if out[key] == "" {
+						out[key] = bo.Op.String()
+					} else {
+						ops := append(strings.Split(out[key], ","), bo.Op.String())
+						sort.Strings(ops)
+						out[key] = strings.Join(ops, ",")
+					}
+				}
+			}
+		}
+		return out
+	}
+	n := 0
+	for _, kind := range []string{"ItemExpr", "SliceExpr"} {
+		rd, wr := guards("expr", kind), guards("let", kind)
+		var keys []string
+		for k := range rd {
+			if _, ok := wr[k]; ok {
+				keys = append(keys, k)
+			}
+		}
+		sort.Strings(keys)
+		for _, k := range keys {
+			n++
+			// the assignment twin may test `==` in addition (assignment at index len appends)
+			wrOps := strings.Join(strings.FieldsFunc(strings.ReplaceAll(","+wr[k]+",", ",==,", ","), func(c rune) bool { return c == ',' }), ",")
+			if strings.Contains(","+rd[k]+",", ",==,") {
+				wrOps = wr[k]
+			}
+			r.Check(rd[k] == wrOps, "C10.R9", kind+"|"+k, "vm", "read and assignment both test `"+rd[k]+"`", fmt.Sprintf("the read handler tests `%s %s` where the assignment handler tests `%s`: the same index is in range for one and out of range for the other", k, rd[k], wr[k]))
+		}
+	}
+	r.Floor("C10.R9", n, 6)
 }
